@@ -21,7 +21,8 @@ RULE = ("ACL shapes: flat, grouped by remark prefix (blocks of 1..n items), ACLs
         "shape, start class, step class, outcome)"
         " Round 4: everything but the numbers compared at the caller's side around every call (nesting, identities, uuids, notes, names)."
         " Round 5: a block that is itself an Acl object."
-        " Rounds 6-7: two-level nesting.")
+        " Rounds 6-7: two-level nesting."
+        " Round 8: entry-less ACLs (argument rules).")
 ASSUMPTIONS = ["an empty ACL returns `start` (nothing to number) and is not judged",
                "a call that follows a raising call on the same object is judged like any other (resequence renumbers everything)",
                "partial renumbering before a raise is not judged",
